@@ -7,7 +7,7 @@ B := build/$(VARIANT)
 CXX := clang++
 CC := clang
 
-COMMON := -g -fno-omit-frame-pointer -DDRACO_VERIF -Wno-error
+COMMON := -g -gdwarf-4 -fno-omit-frame-pointer -DDRACO_VERIF -Wno-error
 COV := -fsanitize-coverage=trace-pc-guard,pc-table
 SAN := -fsanitize=address,undefined,float-cast-overflow -fno-sanitize-recover=all
 
@@ -57,7 +57,13 @@ INC := -I$(REPO)/src -I$(B) -Isim
 
 all: $(B)/sim
 
-$(B)/build.ninja:
+# Re-configure when the flags of this variant change.
+.PHONY: FORCE
+$(B)/flags.stamp: FORCE
+	@mkdir -p $(B)
+	@echo '$(LIBFLAGS_$(VARIANT)) | $(REPO)' | cmp -s - $@ || echo '$(LIBFLAGS_$(VARIANT)) | $(REPO)' > $@
+
+$(B)/build.ninja: $(B)/flags.stamp
 	mkdir -p $(B)
 	cd $(B) && cmake -G Ninja $(REPO) -DCMAKE_BUILD_TYPE=None \
 	  -DCMAKE_CXX_COMPILER=$(CXX) -DCMAKE_C_COMPILER=$(CC) -DDRACO_TESTS=OFF \
